@@ -55,7 +55,7 @@ class _Estimate:
         pauli_recs: Sequence[PauliReconstructorFactory],
         sampling_counts: Sequence[MeasurementCounts],
     ):
-        self._op = op
+        self._op = op.copy()
         self._const = const
         self._pauli_sets = pauli_sets
         self._pauli_recs = pauli_recs
